@@ -1779,7 +1779,9 @@ def run(ctx):
                 "EDIF.properties, twin definitions and original identifiers; copies: rebuild through the API, clone(), "
                 "EDIF and Verilog compose+parse (of the generated netlist and of the already-read netlist); every kind of "
                 "single mutation of the copy from the statement's list at randomly chosen sites, plus renames / unnaming / "
-                "reordering / original-identifier edits / SDN_Assignment_ and wildcard names for the correspondence. "
+                "reordering / original-identifier edits / SDN_Assignment_ and wildcard names for the correspondence; "
+                "compare->mutate->compare histories (8 steps) on one live pair, steps from every public mutator family "
+                "(reorder setters, bulk removers, positional adds, single mutations) on either or both sides, judged after every step. "
                 "A case is a pair (CNetlist of original, CNetlist of copy); distinct = distinct pairs; non-trivial = the "
                 "original has hierarchy depth >= 2 or a port of width >= 2.")
     ctx.assumptions = [
